@@ -126,6 +126,7 @@ class World:
         self.bg_stop = False
         self.last_probe = {}
         self.up_since = {}
+        self.closed_port = bb.free_port()
 
     def now(self):
         return round(time.time() - self.t0, 3)
@@ -165,14 +166,16 @@ class World:
         o = self.origin_direct if kind == "direct" else self.origin
         return ("ipv4", "127.0.0.1", o.port)
 
-    def probe(self, kind, phase, timeout=4.0, tag=b"ping"):
-        """one request through connector `kind`: tunnel established and echo round trip"""
+    def probe(self, kind, phase, timeout=4.0, tag=b"ping", dest=None):
+        """one request through connector `kind`: tunnel established and echo round trip; dest="closed": towards a port
+        where nothing listens (the upstream is fine, the destination is not)"""
         t = time.time()
         out = "fail"
         why = ""
         c = None
         try:
-            c, rep = bb.http_connect(self.lport[kind], self.target(kind), timeout=timeout)
+            target = self.target(kind) if dest is None else ("ipv4", "127.0.0.1", self.closed_port)
+            c, rep = bb.http_connect(self.lport[kind], target, timeout=timeout)
             if bb.established(rep):
                 c.send(tag)
                 c.recv_some(timeout=timeout, want=len(tag))
@@ -188,7 +191,7 @@ class World:
         if c:
             c.close()
         dt = round(time.time() - t, 3)
-        r = {"ev": "probe", "kind": kind, "phase": phase, "outcome": out, "seconds": dt, "why": why}
+        r = {"ev": "probe", "kind": kind, "phase": phase, "outcome": out, "seconds": dt, "why": why, "dest": dest or "origin"}
         self.rec(r)
         self.last_probe[kind] = r
         return out
